@@ -111,22 +111,29 @@ def c10_context(srv, evs):
     signature of a C10 finding names both, so that a failure of another variant is not taken for a known one)"""
     how = sorted({"v" if e.get("how") == 0 else "u" for e in evs if e.get("e") == "Notify"})
     o = srv.norm["opts"]["prio"]["kind"] != "none" or any(s["prio"]["kind"] != "none" for s in srv.norm["services"])
-    return "|prio=%d|how=%s" % (1 if o else 0, "".join(how))
+    return "prio=%d|how=%s|" % (1 if o else 0, "".join(how))
 
 
-def report(c, mode, srv, scripts, traces, crashes, counts):
-    """validate the traces; one finding per rejected event / crash"""
-    _attsec.count_events(traces, counts)
-    for k, j, out in crashes:
-        lines = scripts[k][:j + 1]
-        c.finding(crash_signature(srv, lines[-1]),
-                  "%s: the server crashed (sanitizer report / signal) while executing '%s'" % (srv.name, lines[-1]),
-                  {"mode": mode, "decl": srv.decl, "lines": lines, "stderr": out[-600:]})
-    for tp, ln, ev, why, evs in _attsec.validate(c, mode, traces):
+def report(c, mode, runs, counts):
+    """runs: list of (srv, scripts, traces, crashes) of executed scripts; validates all traces (in parallel) and
+    reports one finding per rejected event / crash"""
+    by_trace = {}
+    for srv, scripts, traces, crashes in runs:
+        _attsec.count_events(traces, counts)
+        for tp in traces:
+            by_trace[tp] = srv
+        for k, j, out in crashes:
+            lines = scripts[k][:j + 1]
+            c.finding(crash_signature(srv, lines[-1]),
+                      "%s: the server crashed (sanitizer report / signal) while executing '%s'" % (srv.name, lines[-1]),
+                      {"mode": mode, "decl": srv.decl, "lines": lines, "stderr": out[-600:]})
+    for tp, ln, ev, why, evs in _attsec.validate(c, mode, sorted(by_trace)):
         if ev.get("e") == "Crash":
             continue
+        srv = by_trace[tp]
         short = {k: v for k, v in ev.items() if k not in ("vals", "cccd", "decl")}
-        c.finding(signature(why) + (c10_context(srv, evs) if mode == "C10" else ""), "%s: event %s is not allowed by the %s oracle %s" % (srv.name, json.dumps(short)[:300], mode, list(why)),
+        c.finding((c10_context(srv, evs) if mode == "C10" else "") + signature(why),
+                  "%s: event %s is not allowed by the %s oracle %s" % (srv.name, json.dumps(short)[:300], mode, list(why)),
                   {"mode": mode, "decl": srv.decl, "lines": _attsec.lines_of_events(evs)})
 
 
@@ -137,7 +144,7 @@ def replay(c, mode):
     scripts = [case["lines"]]
     traces, crashes = _attsec.run(c, srv, "replay", scripts)
     c.sample(vlib.read_ndjson(traces[0])[-3:])
-    report(c, case.get("mode", mode), srv, scripts, traces, crashes, counts)
+    report(c, case.get("mode", mode), [(srv, scripts, traces, crashes)], counts)
     c.extra["events_by_action"] = counts
 
 
@@ -155,11 +162,19 @@ def chunked(scripts, n_events):
     return parts
 
 
-def replay_behaviours(c, mode, srv, tag, behs, counts, observe=True, chunk=12000, tail=()):
-    scripts = [_attsec.script_of(srv, b, observe) + list(tail) for b in behs]
-    for i, part in enumerate(chunked(scripts, chunk)):
-        traces, crashes = _attsec.run(c, srv, "%s%d" % (tag, i), part)
-        report(c, mode, srv, part, traces, crashes, counts)
+def replay_behaviours(c, mode, jobs, counts, observe=True, chunk=40000, tail=()):
+    """jobs: list of (srv, tag, behaviours). Executes everything (harness runs in parallel), then validates all traces"""
+    work = []
+    for srv, tag, behs in jobs:
+        scripts = [_attsec.script_of(srv, b, observe) + list(tail) for b in behs]
+        for i, part in enumerate(chunked(scripts, chunk)):
+            work.append((srv, "%s%d" % (tag, i), part))
+
+    def one(w):
+        srv, tag, part = w
+        traces, crashes = _attsec.run(c, srv, tag, part)
+        return srv, part, traces, crashes
+    report(c, mode, parallel(one, work), counts)
 
 
 def parallel(fn, items):
@@ -190,9 +205,11 @@ def run_c05(c):
         behs = _attsec.behaviours(c, s, "C05", 2 if (s is servers[0] or not c.quick) else 1, 1, nc=1)
         behs += _attsec.behaviours(c, s, "C05", dsim, 0, nc=2, simulate=nsim, seed=c.seed)
         return s, behs
+    jobs = []
     for s, behs in parallel(one, servers):
         c.sample({"declaration": s.name, "placement": s.decl["comment"], "behaviour": behs[len(behs) // 2]})
-        replay_behaviours(c, "C05", s, "c05", behs, counts)
+        jobs.append((s, "c05", behs))
+    replay_behaviours(c, "C05", jobs, counts)
     c.exhaustive = True
     c.extra["events_by_action"] = counts
 
@@ -207,8 +224,8 @@ def run_c07(c):
                       "refusing when it does not fit with 4 octets (handle + offset)"]
     servers = _attsec.build(c, _attsec.prepare(c, _attsec.c07_decls()))
     big, small = servers
-    _attsec.model_check(c, big, "C07", 5 if c.quick else 6, 0, C07_INV, nc=2)
-    _attsec.model_check(c, small, "C07", 4 if c.quick else 5, 0, C07_INV, nc=3)
+    _attsec.model_check(c, big, "C07", 4 if c.quick else 6, 0, C07_INV, nc=2)
+    _attsec.model_check(c, small, "C07", 3 if c.quick else 5, 0, C07_INV, nc=3)
     counts = {}
     nsim, dsim = (150, 14) if c.quick else (2500, 16)
     plan = [(big, 3, 2), (small, 2, 3)] if c.quick else [(big, 3, 3), (small, 3, 2), (big, 4, 1)]
@@ -216,13 +233,17 @@ def run_c07(c):
     def one(job):
         s, depth, nc = job
         return s, _attsec.behaviours(c, s, "C07", depth, 0, nc=nc)
-    for s, behs in parallel(one, plan):
+    jobs = []
+    for i, (s, behs) in enumerate(parallel(one, plan)):
         c.sample({"declaration": s.name, "behaviour": behs[len(behs) // 3]})
-        replay_behaviours(c, "C07", s, "bfs", behs, counts)
-    for s in servers:
-        behs = _attsec.behaviours(c, s, "C07", dsim, 0, nc=3, simulate=nsim, seed=c.seed)
+        jobs.append((s, "bfs%d_" % i, behs))
+
+    def sim(s):
+        return s, _attsec.behaviours(c, s, "C07", dsim, 0, nc=3, simulate=nsim, seed=c.seed)
+    for s, behs in parallel(sim, servers):
         c.sample({"declaration": s.name, "behaviour": behs[0]})
-        replay_behaviours(c, "C07", s, "sim", behs, counts)
+        jobs.append((s, "sim", behs))
+    replay_behaviours(c, "C07", jobs, counts)
     c.exhaustive = True
     c.extra["events_by_action"] = counts
 
@@ -240,13 +261,17 @@ def run_c10(c):
     nsim, dsim = (40, 24) if c.quick else (400, 30)
 
     def one(s):
-        behs = _attsec.behaviours(c, s, "C10", 2, 1, nc=2)
+        # all pairs of operations of one connection (two in thorough) from the empty history and behind "connection 1
+        # subscribed to everything"; the second connection acts in the random behaviours
+        behs = _attsec.behaviours(c, s, "C10", 2, 1, nc=1 if c.quick else 2)
         behs += _attsec.behaviours(c, s, "C10", dsim, 2, nc=2, simulate=nsim, seed=c.seed)
         return s, behs
+    jobs = []
     for s, behs in parallel(one, servers):
         c.sample({"declaration": s.name, "priorities": s.decl["comment"], "behaviour": behs[len(behs) // 2]})
-        # every execution ends with a drain of both connections: whatever was requested is observed
-        replay_behaviours(c, "C10", s, "c10", behs, counts, tail=("drain 0", "drain 1"))
+        jobs.append((s, "c10", behs))
+    # every execution ends with a drain of both connections: whatever was requested is observed
+    replay_behaviours(c, "C10", jobs, counts, tail=("drain 0", "drain 1"))
     c.exhaustive = True
     c.extra["events_by_action"] = counts
 
@@ -309,15 +334,14 @@ def run_c01(c):
     mine = [_attsec.c05_decl(_attsec.C05_FIXED[0], "c01_wq_cccd_enc"), _attsec.c10_decl("c01_prio", [2], [2], [3, 2])]
     corners = _gatt.corner_decls()
     if c.quick:
-        keep = ("corner_minimal", "corner_cccd5", "corner_write_queue", "corner_encryption", "corner_fixed_gaps", "corner_uuid128")
+        keep = ("corner_write_queue", "corner_fixed_gaps")
         corners = [d for d in corners if d["name"] in keep]
     sampled = [] if c.quick else _gatt.sampled_decls(c, 6)
     only = os.environ.get("VERIF_GATT_ONLY")
     decls = [d for d in mine + corners + sampled if not only or only in d["name"]]
     servers = _attsec.build(c, _attsec.prepare(c, decls))
     c.extra["declarations"] = [_gatt.decl_summary(s) for s in servers]
-    for s in servers[:2]:
-        _attsec.model_check(c, s, "C01", 1, 0, ["RefConforms", "C01Framed"], nc=1)
+    parallel(lambda s: _attsec.model_check(c, s, "C01", 1, 0, ["RefConforms", "C01Framed"], nc=1), servers[:2])
     counts = {}
     per_exec = 250
 
@@ -341,21 +365,25 @@ def run_c01(c):
                     nxt.append(head + rest)
             # executions behind a crashed one were run by _attsec.run in follow-up processes already
             todo, rounds = nxt, rounds + 1
-        return s, scripts, all_traces, all_crashes
+        merged = _attsec.merge_traces(all_traces, os.path.join(c.build_dir, "%s_grid.ndjson" % s.name))
+        return s, scripts, [merged], all_crashes
+    by_trace = {}
     for s, scripts, traces, crashes in parallel(one, servers):
         c.sample({"declaration": s.name, "requests": sum(len(x) for x in scripts), "first": scripts[0][:8]})
         _attsec.count_events(traces, counts)
+        by_trace[traces[0]] = s
         for lines, out in crashes:
             c.finding(crash_signature(s, lines[-1]),
                       "%s: the server crashed (sanitizer report / signal) while executing '%s'" % (s.name, lines[-1]),
                       {"mode": "C01", "decl": s.decl, "lines": lines, "stderr": out[-600:]})
-        for tp, ln, ev, why, evs in _attsec.validate(c, "C01", traces):
-            if ev.get("e") == "Crash":
-                continue
-            head = [e for e in evs[:-1] if e.get("e") != "Req" or e.get("c") != 0]       # reset + history
-            c.finding(signature(why), "%s: request %s answered %s: not allowed by ResponseClass %s"
-                      % (s.name, ev.get("in"), ev.get("out"), list(why)),
-                      {"mode": "C01", "decl": s.decl, "lines": _attsec.lines_of_events(head + [evs[-1]])})
+    for tp, ln, ev, why, evs in _attsec.validate(c, "C01", sorted(by_trace)):
+        s = by_trace[tp]
+        if ev.get("e") == "Crash":
+            continue
+        head = [e for e in evs[:-1] if e.get("e") != "Req" or e.get("c") != 0]       # reset + history
+        c.finding(signature(why), "%s: request %s answered %s: not allowed by ResponseClass %s"
+                  % (s.name, ev.get("in"), ev.get("out"), list(why)),
+                  {"mode": "C01", "decl": s.decl, "lines": _attsec.lines_of_events(head + [evs[-1]])})
     c.exhaustive = True
     c.extra["events_by_action"] = counts
     c.extra["rule"] = "grid enumerated by the python check: 256 opcodes x lengths x boundary handles / offsets x histories"
